@@ -1123,6 +1123,8 @@ def discharge(F, A, s):
                 if f[0] == "variant" and f[1] == r and f[2] == want:
                     return ("variant-guard", "dominated by a test that the value is %s" % want)
             # value produced by a call that is Some/Ok on all paths (summary of a local callee)
+            if want == "Some" and args and last_after_push(A, args[0]):
+                return ("last-after-push", "the value is `last()` / `last_mut()` of a vector that received an element by `push` on the straight-line path just before: it is Some")
             src = call_source(A, args[0]) if args else None
             if src and always_variant(F, src, want):
                 return ("total-callee", "%s returns %s on every path" % (src, want))
@@ -1275,6 +1277,59 @@ def closure_param_enumerate_index(F, A, op):
         r = c["args"][0]
         if r[0] in ("C", "M") and len(r[1]) == 1 and _ENUM_CHAIN.match(PB.local_ty(r[1][0]).lstrip("&").replace("mut ", "")):
             return True
+    return False
+
+
+def vec_root(A, op):
+    """root of a vector operand, through `deref` / `deref_mut` views as well"""
+    if op[0] not in ("C", "M"):
+        return None
+    r = A.place_root(op[1]) if len(op[1]) > 1 else A.root(op[1][0])
+    for _ in range(4):
+        if not isinstance(r, int):
+            return r
+        defs = A.B.defs.get(r, [])
+        if len(defs) == 1 and defs[0][2] == "call" and re.search(r"::(deref_mut|as_mut_slice|as_mut)$", defs[0][3]["f"].get("p") or "") and defs[0][3]["args"] and defs[0][3]["args"][0][0] in ("C", "M"):
+            a = defs[0][3]["args"][0]
+            r = A.place_root(a[1]) if len(a[1]) > 1 else A.root(a[1][0])
+        else:
+            return r
+    return r
+
+
+def last_after_push(A, op):
+    """`v.push(x); v.last_mut().unwrap()`: the unwrapped operand is the direct result of last() / last_mut() on a vector, and walking back from that call over unique
+    predecessors the first call that touches the vector is Vec::push on it"""
+    if op[0] not in ("C", "M") or len(op[1]) != 1:
+        return False
+    defs = A.B.defs.get(op[1][0], [])
+    if len(defs) != 1 or defs[0][2] != "call":
+        return False
+    c = defs[0][3]
+    if not re.search(r"(slice::<impl \[T\]>|Vec::<.*>)::(last|last_mut)$", c["f"].get("p") or "") or len(c.get("args", [])) != 1:
+        return False
+    r = vec_root(A, c["args"][0])
+    if r is None:
+        return False
+    cur = defs[0][0]
+    preds = A.B.preds()
+    for _ in range(10):
+        ps = [x for x in preds.get(cur, []) if not A.blocks[x].get("cleanup") and cur in mirutil.normal_successors(A.blocks[x]["t"])]
+        if len(ps) != 1:
+            return False
+        cur = ps[0]
+        t = A.blocks[cur]["t"]
+        if t[0] == "call":
+            pth = t[1]["f"].get("p") or ""
+            roots = [vec_root(A, a) for a in t[1].get("args", [])]
+            if re.search(r"Vec::<.*>::push$", pth) and roots and roots[0] == r:
+                return True
+            if re.search(r"::(deref_mut|deref|as_mut_slice)$", pth):
+                continue
+            if r in roots:
+                return False
+        elif t[0] not in ("goto", "drop", "assert", "switch"):
+            return False
     return False
 
 
